@@ -301,6 +301,9 @@ def hand_schedules():
         # the tier progress is reset when player 1 starts ball 2, not when player 2 does
         ('ball2-reset-only-player1', 2, _ops(c2, c2, 'press', 'press', 'drain', 'drain', c2, 'drain', c2, 'drain', 'drain', c1)),
         # ... and again in the next game (the once-per-game flag is cleared at game end)
+        # ... also when the previous game ended with a balance of exactly zero
+        ('ball2-reset-second-game-after-zero-balance', 2,
+         _ops(*(['service', 'press'] + ['drain'] * BALLS_PER_GAME + [c2, 'press', c2, 'drain', c2, c1, 'drain', c2]))),
         ('ball2-reset-second-game', 2, _ops('service', 'service', 'press', 'drain', 'drain', 'press', c2, 'drain', c2, c2, 'drain')),
     ]
 
